@@ -77,6 +77,9 @@ class RC6MBIT(protocol_base.IrProtocolBase):
         normalized_code = []
         decoded = []
 
+        if len(code) < 2:
+            raise LeadInError
+
         mark, space = code[:2]
         code = code[2:]
 
@@ -160,6 +163,9 @@ class RC6MBIT(protocol_base.IrProtocolBase):
                         break
                 else:
                     raise DecodeError
+
+        if len(decoded) <= self._parameters[-1][1]:
+            raise DecodeError('Not enough bits')
 
         params = dict(frequency=self.frequency)
 
